@@ -16,7 +16,10 @@ import (
 //   S:host:name:value:path:exp        jar.SetByHost(host, cookie)            exp = n | p | f
 //   K:host:name:value                 jar.SetKeyValue(host, name, value)
 //   R:host:reqpath:c1+c2+…            real request to http://host+reqpath through a client using the jar; the
-//                                     server answers with Set-Cookie c_i = name~value~path~exp
+//                                     server answers with Set-Cookie c_i = name~value~path~exp[~mal]; mal = e0 e1 e2
+//                                     l0 l1 l2 makes the line one fasthttp Cookie.ParseBytes fails on: an attribute
+//                                     it cannot parse (digit: Max-Age=abc, Max-Age=-1, Expires=notadate) directly
+//                                     behind name=value (e: path and expires stand behind it) or at the end (l)
 //   G:host:path                       jar.Get(uri)
 //   X:host:path                       jar.Get(uri), then release every returned cookie (the documentation allows it)
 //   L                                 jar.Release()
@@ -90,7 +93,10 @@ func parseJarOps(s string) (ops []jarOp, ok bool) {
 				if p != "-" {
 					for _, c := range strings.Split(p, "+") {
 						at := strings.Split(c, "~")
-						if len(at) != 4 || (at[3] != "n" && at[3] != "p" && at[3] != "f") {
+						if (len(at) != 4 && len(at) != 5) || (at[3] != "n" && at[3] != "p" && at[3] != "f") {
+							return nil, false
+						}
+						if len(at) == 5 && !isMal(at[4]) {
 							return nil, false
 						}
 						for _, a := range at[:3] {
@@ -142,6 +148,39 @@ func showCookies(cs []*fasthttp.Cookie) string {
 
 // respCookies is what the server adds to the next response (jar cases are sequential).
 var respCookies []*fasthttp.Cookie
+
+// respMal[i] != "" makes the Set-Cookie line of respCookies[i] a malformed one (see malformLine).
+var respMal []string
+
+var badAttrs = []string{"Max-Age=abc", "Max-Age=-1", "Expires=notadate"}
+
+func isMal(m string) bool {
+	return len(m) == 2 && (m[0] == 'e' || m[0] == 'l') && m[1] >= '0' && m[1] <= '2'
+}
+
+// malformLine puts an attribute fasthttp cannot parse into a Set-Cookie line (`k=v; expires=…; path=/a`):
+// e = directly behind name=value, l = at the end.
+func malformLine(line, m string) string {
+	bad := badAttrs[m[1]-'0']
+	if m[0] == 'e' {
+		if i := strings.Index(line, "; "); i >= 0 {
+			return line[:i] + "; " + bad + line[i:]
+		}
+	}
+	return line + "; " + bad
+}
+
+// setCookieLines is what the server handler writes (raw lines: fasthttp's SetCookie would keep one per name).
+func setCookieLines() []string {
+	out := make([]string, len(respCookies))
+	for i, ck := range respCookies {
+		out[i] = string(ck.Cookie())
+		if i < len(respMal) && respMal[i] != "" {
+			out[i] = malformLine(out[i], respMal[i])
+		}
+	}
+	return out
+}
 
 // cookieHeaderSeen is the Cookie header of the last request the server handled.
 var cookieHeaderSeen string
@@ -240,18 +279,27 @@ func runJarOnce(ops []jarOp) (string, bool) {
 			}
 			obs = append(obs, "w")
 		case 'R':
-			respCookies = respCookies[:0]
+			respCookies, respMal = respCookies[:0], respMal[:0]
 			if p[2] != "-" {
 				for _, c := range strings.Split(p[2], "+") {
 					at := strings.Split(c, "~")
 					respCookies = append(respCookies, mkCookie(un(at[0]), un(at[1]), un(at[2]), at[3], now))
+					if len(at) == 5 {
+						respMal = append(respMal, at[4])
+					} else {
+						respMal = append(respMal, "")
+					}
 				}
 			}
 			cookieHeaderSeen = ""
 			seen.ran = false
 			req := client.AcquireRequest().SetClient(cl).SetTimeout(5 * time.Second)
 			resp, err := req.Get("http://" + p[0] + p[1])
-			if err != nil {
+			if err != nil && seen.ran {
+				// the server answered and a response hook failed (an unparsable last Set-Cookie): core.execute has
+				// closed the response, which released the request with it
+				obs = append(obs, "re="+hx(cookieHeaderSeen))
+			} else if err != nil {
 				client.ReleaseRequest(req)
 				obs = append(obs, "r=err:"+hx(err.Error()))
 			} else {
@@ -265,7 +313,7 @@ func runJarOnce(ops []jarOp) (string, bool) {
 			for _, c := range respCookies {
 				fasthttp.ReleaseCookie(c)
 			}
-			respCookies = respCookies[:0]
+			respCookies, respMal = respCookies[:0], respMal[:0]
 		}
 		if ticked {
 			// the operation must lie inside its tick, away from both boundaries
